@@ -386,6 +386,8 @@ def judge(run, traces, only=None, workers=None, name="t"):
     """Validate traces with TraceEngine.tla; report property-predicate failures for the
     properties in `only` (a set of ids; None = all) and count model drift."""
     by_tid = {t["tid"]: t for t in traces}
+    if len(by_tid) != len(traces):
+        raise common.MachineryFailure("duplicate trace identifiers: verdicts could not be attributed")
     V, Dr, res = T.validate(traces, workers=workers, name=name)
     run.traces += len(traces)
     run.add_tlc(res, "TraceEngine(%s): %d traces, %d steps" % (name, len(traces), sum(len(t["steps"]) for t in traces)))
